@@ -133,6 +133,13 @@ def run(ctx):
         for v in ctx.violations:
             pass
 
+    chk = None
+    if ctx.tier == "thorough" and not core_broken and info["rc"] == 0:
+        chk = ctx.coqchk(GROUP, ["C16"])
+        if not chk["ok"] or chk.get("axioms") not in ("<none>",):
+            ob_failed.append("coqchk: %s" % chk)
+            if not ctx.violations:
+                ctx.violation("coqchk-failed", dict(unchecked="coqchk on G16.C16", detail=chk), False, str(chk)[:300])
     nontriv = int(meta.get("parser_accepted", 0)) + int(meta.get("applier_cases", 0)) + int(meta.get("e2e_cases", 0))
     coverage = {
         "obligations": len(info["theorems"]),
@@ -145,6 +152,7 @@ def run(ctx):
             "net/http.Header methods and CanonicalHeaderKey (FwdLib.Hdr), strings.EqualFold on ASCII",
         ]),
         "theorems": info["theorems"],
+        "coqchk": chk,
         "unchecked_obligations": ob_failed,
         "evaluations": int(meta.get("parser_cases", 0)) + int(meta.get("applier_cases", 0)) + int(meta.get("e2e_cases", 0)),
         "e2e_cases_real_binary": meta.get("e2e_kinds"),
